@@ -127,7 +127,10 @@ class FSA:
         }
 
     def _from_graph_dict(self, graph_dict):
-        self._graph_dict = copy.deepcopy(graph_dict)
+        # one copy per vertex: a deepcopy of the whole dictionary would keep
+        # rows that are a single object in the input shared between vertices
+        self._graph_dict = {v: copy.deepcopy(neighbors)
+                            for v, neighbors in graph_dict.items()}
         hidden = _hidden_vertices(graph_dict)
         for v in hidden:
             self._graph_dict[v] = {}
